@@ -171,11 +171,20 @@ def handle (j : Json) : Except String Json := do
     let final ← (← (← j.getObjVal? "final").getArr?).toList.mapM molOfJson
     let pos ← posOfJson (← j.getObjVal? "pos")
     let posAfter ← posOfJson (← j.getObjVal? "pos_after")
+    let edges ← (← (← j.getObjVal? "edges").getArr?).toList.mapM fun e => do
+      pure ((← (← e.getArrVal? 0).getNat?), (← (← e.getArrVal? 1).getNat?), (← (← e.getArrVal? 2).getNat?))
+    let pairs ← (← (← j.getObjVal? "pairs").getArr?).toList.mapM fun p => do
+      pure ((← (← p.getArrVal? 0).getStr?), (← (← p.getArrVal? 1).getStr?))
+    let specs := match pairs.mapM (fun p => do pure ((← parseSpec p.1), (← parseSpec p.2))) with
+      | .ok s => s
+      | .error _ => []
     let a := ligStructureSame orig final
     let b := ligPositionsHanded attached pos posAfter
     let c := ligOthersKept attached pos posAfter
-    pure (okJson [("holds", Json.bool (a && b && c)),
+    let d := ligAttachOkB orig attached edges specs
+    pure (okJson [("holds", Json.bool (a && b && c && d)),
                   ("why", Json.str ((if a then "" else "the molecule list changed; ") ++
+                    (if d then "" else "the attached nodes are not the ones the specifications select; ") ++
                     (if b then "" else "a ligand residue does not hold the position generated for its attached node; ") ++
                     (if c then "" else "another residue lost its position; ")))])
   | "split" =>
